@@ -746,7 +746,7 @@ impl Compiler {
         self.compile_expression(&switch_stmt.discriminant, disc_reg)?;
 
         // Push loop context for break (switch uses the same break mechanism)
-        self.push_loop(None);
+        self.push_break_target(None);
 
         // Collect case targets
         let mut case_jumps: Vec<super::JumpPlaceholder> = Vec::new();
@@ -1004,7 +1004,7 @@ impl Compiler {
         self.builder.set_span(labeled.span);
 
         // Push loop context with label
-        self.push_loop(Some(labeled.label.name.cheap_clone()));
+        self.push_break_target(Some(labeled.label.name.cheap_clone()));
 
         // Compile the body
         self.compile_statement_impl(&labeled.body)?;
